@@ -26,6 +26,21 @@ type message struct {
 	flags map[imap.Flag]struct{}
 }
 
+// snapshot returns a copy of the message which can be used after the mailbox
+// lock has been released.
+func (msg *message) snapshot() *message {
+	flags := make(map[imap.Flag]struct{}, len(msg.flags))
+	for flag := range msg.flags {
+		flags[flag] = struct{}{}
+	}
+	return &message{
+		uid:   msg.uid,
+		buf:   msg.buf,
+		t:     msg.t,
+		flags: flags,
+	}
+}
+
 func (msg *message) fetch(w *imapserver.FetchResponseWriter, options *imap.FetchOptions) error {
 	w.WriteUID(msg.uid)
 
